@@ -94,7 +94,7 @@ impl LangInterpreter for English {
         };
         if status.is_ok()
             && (lemma.ends_with("th")
-                || num_func == "first"
+                || lemma == "first"
                 || num_func == "second"
                 || lemma == "third")
         {
@@ -150,6 +150,7 @@ impl LangInterpreter for English {
         } else {
             match word {
                 "first" => MorphologicalMarker::Ordinal("st"),
+                "firsts" => MorphologicalMarker::Ordinal("sts"),
                 "second" => MorphologicalMarker::Ordinal("nd"),
                 "third" => MorphologicalMarker::Ordinal("rd"),
                 "thirds" => MorphologicalMarker::Ordinal("rds"),
